@@ -350,6 +350,15 @@ def check_one(chk, c, o, r_w, r_ess, r_lse, r_rej, r_sl):
             elif math.isfinite(o["rel"]) != math.isfinite(osf["rel"]):
                 chk.fail("finite", case, f"relative error {osf['rel']!r} after adding {cshift} to every log-likelihood",
                          {"clause": "finite", "field": "log_evidence_error", "absmax": absmax + abs(cshift)})
+            # the same on the SAME object: the densities of a set are changed and the weights recomputed (reweighting to another
+            # likelihood); every functional must follow, none may keep its earlier value
+            s.log_likelihood = s.log_likelihood + cshift
+            s.compute_weights()
+            z2 = float(s.log_evidence)
+            if not core.close(z2, osf["logZ"], 1e-12, 1e-12) or not np.array_equal(ns.to_np(s.log_w), osf["log_w"], equal_nan=True):
+                chk.fail("shift: log-evidence moves by c", case,
+                         f"after adding {cshift} to the log-likelihood of the same set and compute_weights(): log-evidence {z2!r}, a fresh set gives {osf['logZ']!r}",
+                         {"clause": "shift", "in_place": True})
         except Exception as exc:
             chk.fail("shift total", case, repr(exc), {"clause": "shift"})
 
